@@ -4,6 +4,7 @@ import (
 	"fmt"
 	"go/token"
 	"go/types"
+	"sort"
 	"strings"
 
 	"golang.org/x/tools/go/ssa"
@@ -12,11 +13,15 @@ import (
 // ---------- automaton with edge events ----------
 
 func runAutomatonE(fn *ssa.Function, start int, classify func(ssa.Instruction) int, edgeEvent func(from, to *ssa.BasicBlock) int, delta func(state, event int) int) autoResult {
-	in := make([]uint32, len(fn.Blocks))
+	// states are kept per (predecessor, block) so that a branch on a flag phi is followed only in
+	// the direction the incoming edge determines
+	type key struct{ pred, b int } // pred = -1 at the entry
+	in := map[key]uint32{}
 	res := autoResult{ExitStates: map[*ssa.BasicBlock]uint32{}, InStates: map[ssa.Instruction]uint32{}}
 	if len(fn.Blocks) == 0 {
 		return res
 	}
+	errSeen := map[string]bool{}
 	apply := func(s uint32, ev int, at ssa.Instruction, record bool) uint32 {
 		var out uint32
 		for st := 0; st < 31; st++ {
@@ -25,7 +30,9 @@ func runAutomatonE(fn *ssa.Function, start int, classify func(ssa.Instruction) i
 			}
 			nx := delta(st, ev)
 			if nx < 0 {
-				if record {
+				k := fmt.Sprintf("%p/%d/%d", at, st, ev)
+				if record && !errSeen[k] {
+					errSeen[k] = true
 					res.Errors = append(res.Errors, autoErr{at, st, ev})
 				}
 				continue
@@ -47,33 +54,58 @@ func runAutomatonE(fn *ssa.Function, start int, classify func(ssa.Instruction) i
 		}
 		return s
 	}
-	in[0] = 1 << uint(start)
-	work := []*ssa.BasicBlock{fn.Blocks[0]}
+	predOf := func(k key) *ssa.BasicBlock {
+		if k.pred < 0 {
+			return nil
+		}
+		return fn.Blocks[k.pred]
+	}
+	k0 := key{-1, 0}
+	in[k0] = 1 << uint(start)
+	work := []key{k0}
 	for len(work) > 0 {
-		b := work[len(work)-1]
+		k := work[len(work)-1]
 		work = work[:len(work)-1]
-		out := transfer(b, in[b.Index], false)
+		b := fn.Blocks[k.b]
+		out := transfer(b, in[k], false)
 		for _, s := range b.Succs {
+			if !feasibleSucc(predOf(k), b, s) {
+				continue
+			}
 			o := out
 			if edgeEvent != nil {
-				if ev := edgeEvent(b, s); ev >= 0 {
+				automatonPred = predOf(k)
+				ev := edgeEvent(b, s)
+				automatonPred = nil
+				if ev >= 0 {
 					o = apply(o, ev, b.Instrs[len(b.Instrs)-1], false)
 				}
 			}
-			if in[s.Index]|o != in[s.Index] {
-				in[s.Index] |= o
-				work = append(work, s)
+			ks := key{b.Index, s.Index}
+			if in[ks]|o != in[ks] {
+				in[ks] |= o
+				work = append(work, ks)
 			}
 		}
 	}
-	for _, b := range fn.Blocks {
-		if in[b.Index] == 0 {
-			continue
+	var keys []key
+	for k, v := range in {
+		if v != 0 {
+			keys = append(keys, k)
 		}
-		out := transfer(b, in[b.Index], true)
+	}
+	sort.Slice(keys, func(i, j int) bool {
+		if keys[i].b != keys[j].b {
+			return keys[i].b < keys[j].b
+		}
+		return keys[i].pred < keys[j].pred
+	})
+	for _, k := range keys {
+		b := fn.Blocks[k.b]
+		out := transfer(b, in[k], true)
 		if len(b.Succs) == 0 {
 			if _, ok := b.Instrs[len(b.Instrs)-1].(*ssa.Return); ok {
-				res.ExitStates[b] = out
+				res.ExitStates[b] |= out
 			}
 		}
 	}
